@@ -477,6 +477,20 @@ impl Server {
         Ok(true)
     }
     
+    /// Log the pop a BLPOP/BRPOP performed as the LPOP/RPOP of the key that served it: the
+    /// blocking command itself is never written (replayed, it would wait, or pop at another moment)
+    fn log_blocking_pop(&self, op_type: &BlockingOp, db: usize, key: &[u8]) {
+        if let Some(aof) = &self.aof_engine {
+            let name = match op_type {
+                BlockingOp::BRPop => "RPOP",
+                _ => "LPOP",
+            };
+            if let Err(e) = aof.append_command(&[RespFrame::bulk_string(name), RespFrame::bulk_string(key)], db) {
+                eprintln!("Failed to append to AOF: {}", e);
+            }
+        }
+    }
+    
     /// Wake up a specific blocked client with data
     fn wake_client(&self, wakeup: WakeupRequest) -> Result<()> {
         // Perform atomic pop based on the operation type. A key that holds another type by now has
@@ -519,6 +533,8 @@ impl Server {
                         super::connection::BlockingOp::BLPop => { self.storage.lpush(wakeup.db, wakeup.key.clone(), vec![popped_value])?; }
                         _ => { self.storage.rpush(wakeup.db, wakeup.key.clone(), vec![popped_value])?; }
                     }
+                } else {
+                    self.log_blocking_pop(&wakeup.op_type, wakeup.db, &wakeup.key);
                 }
             }
             None => {
@@ -550,6 +566,7 @@ impl Server {
                                 let _ = conn.send_frame(&response);
                                 conn.state = ConnectionState::Authenticated;
                             });
+                            self.log_blocking_pop(&op_type, wakeup.db, key);
                             return Ok(());
                         }
                     }
@@ -3283,6 +3300,7 @@ impl Server {
         // Try non-blocking first (fast path)
         for key in &keys {
             if let Some(value) = self.storage.lpop(db_index, key)? {
+                self.log_blocking_pop(&BlockingOp::BLPop, db_index, key);
                 return Ok(RespFrame::Array(Some(vec![
                     RespFrame::from_bytes(key.clone()),
                     RespFrame::from_bytes(value),
@@ -3351,6 +3369,7 @@ impl Server {
         // Try non-blocking first (fast path)  
         for key in &keys {
             if let Some(value) = self.storage.rpop(db_index, key)? {
+                self.log_blocking_pop(&BlockingOp::BRPop, db_index, key);
                 return Ok(RespFrame::Array(Some(vec![
                     RespFrame::from_bytes(key.clone()),
                     RespFrame::from_bytes(value),
